@@ -9,6 +9,7 @@ package zzverif
 import (
 	"errors"
 	"fmt"
+	"math"
 	"reflect"
 	"strconv"
 	"strings"
@@ -156,7 +157,7 @@ func refEncodeTLV(v reflect.Value, p berParams) (out refTLV, err error) {
 	switch {
 	case t == asn.BitStringType:
 		bs := v.Interface().(asn.BitString)
-		if uint64(len(bs.Bytes)) != (bs.BitLength+7)/8 {
+		if need := bs.BitLength/8 + (bs.BitLength%8+7)/8; uint64(len(bs.Bytes)) != need { // (no overflow near 2^64)
 			// not a bit string value: the octets given do not hold BitLength bits (X.690 8.6.2: the unused-bits count refers
 			// to the last of exactly ceil(bits / 8) subsequent octets)
 			return out, errRefUnsupported
@@ -432,6 +433,7 @@ var bitAlphabet = []asn.BitString{
 	{Bytes: []byte{0xff}, BitLength: 1}, {Bytes: []byte{0xff, 0xff}, BitLength: 9},
 	// BitLength and octets that disagree: not a value, must be refused
 	{Bytes: nil, BitLength: 3}, {Bytes: []byte{0xf0}, BitLength: 20}, {Bytes: []byte{1, 2}, BitLength: 0}, {Bytes: []byte{1, 2}, BitLength: 3},
+	{Bytes: nil, BitLength: math.MaxUint64}, {Bytes: nil, BitLength: math.MaxUint64 - 6}, {Bytes: []byte{1}, BitLength: math.MaxUint64 - 2},
 }
 
 type builder struct {
